@@ -1200,7 +1200,11 @@ func (f *Field) Import(rowIDs, columnIDs []uint64, timestamps []*time.Time, opts
 
 		var standard []string
 		if timestamp == nil {
-			standard = []string{viewStandard}
+			// like SetBit: without a time stamp only the standard view is
+			// written, and a field without one stores nothing
+			if !f.options.NoStandardView {
+				standard = []string{viewStandard}
+			}
 		} else {
 			standard = viewsByTime(viewStandard, *timestamp, q)
 			if !f.options.NoStandardView {
